@@ -292,6 +292,67 @@ func VerifC12KeyListOutput() {
 	vf.Reach("end")
 }
 
+// VerifC13ListCmd: `info key list` through the real command: exactly the 28 supported keys,
+// each once, each with the seven notes and the signature of its scale (reference: spec).
+func VerifC13ListCmd() {
+	vf.Assert("flags-parse", infoKeyCmdList.ParseFlags([]string{"--output", ""}) == nil)
+	vf.NondetMapOrder(true) // whatever order Go's maps are walked in
+	out, err := verifCapture("keylist-out.txt", func() error { return infoKeyCmdList.RunE(infoKeyCmdList, nil) })
+	vf.NondetMapOrder(false)
+	vf.Assert("listing-succeeds", err == nil && out != "")
+	// entries: "- key: K", then "    - NOTE" lines, then "sharp: n" / "flat: n"
+	type entry struct {
+		notes       []string
+		sharp, flat string
+	}
+	entries := map[string]*entry{}
+	count := 0
+	var cur *entry
+	for _, line := range strings.Split(out, "\n") {
+		switch {
+		case strings.HasPrefix(line, "- key: "):
+			cur = &entry{}
+			entries[strings.Trim(strings.TrimPrefix(line, "- key: "), "'\"")] = cur
+			count++
+		case strings.HasPrefix(line, "    - ") && cur != nil:
+			cur.notes = append(cur.notes, strings.Trim(strings.TrimPrefix(line, "    - "), "'\""))
+		case strings.HasPrefix(line, "  sharp: ") && cur != nil:
+			cur.sharp = strings.TrimPrefix(line, "  sharp: ")
+		case strings.HasPrefix(line, "  flat: ") && cur != nil:
+			cur.flat = strings.TrimPrefix(line, "  flat: ")
+		}
+	}
+	vf.Assert("twenty-eight-entries-no-key-twice", count == 28 && len(entries) == 28)
+	digits := []string{"", "1", "2", "3", "4", "5", "6", "7"}
+	for l := 0; l < 7; l++ {
+		for a := -1; a <= 1; a++ {
+			for _, minor := range []bool{false, true} {
+				if !spec.IsListedKey(l, a, minor) {
+					continue
+				}
+				name := verifNoteText(l, a) + map[bool]string{true: "m", false: ""}[minor]
+				e := entries[name]
+				vf.Assert("every-supported-key-is-listed", e != nil)
+				if e == nil {
+					continue
+				}
+				sig := spec.Signature(l, a, minor)
+				ok := len(e.notes) == 7
+				for i := 0; ok && i < 7; i++ {
+					ok = e.notes[i] == verifNoteText((l+i)%7, spec.AccidentalInKey((l+i)%7, sig))
+				}
+				vf.Assert("listed-key-has-its-own-seven-notes", ok)
+				if sig >= 0 {
+					vf.Assert("listed-signature", e.sharp == digits[sig] && e.flat == "")
+				} else {
+					vf.Assert("listed-signature", e.flat == digits[-sig] && e.sharp == "")
+				}
+			}
+		}
+	}
+	vf.Reach("end")
+}
+
 // verifStale: an earlier, much longer result left in the -o file.
 func verifStale() string { return strings.Repeat("- old: line\n", 400) }
 
@@ -525,12 +586,58 @@ func VerifC08LongDurations() {
 	vf.Reach("written")
 }
 
+// VerifC02PlainIntegers: a duration means the same number of beats however YAML lets it be
+// written: plain, quoted, with leading zeros (`010` is ten beats, not the octal eight), as a
+// fraction with leading zeros. The file ends at the exact total.
+func VerifC02PlainIntegers() {
+	in, out := vf.TempPath("ints-in.yml"), vf.TempPath("ints-out.mid")
+	verifReset(in, out)
+	defer verifReset(in, out)
+	forms := []struct {
+		values string
+		ticks  uint32
+	}{
+		{"[010]", 9600}, {"[012, 1/2]", 12000}, {"[\"010\"]", 9600}, {"[010/4]", 2400}, {"[08]", 7680}, {"[10]", 9600},
+		{"[0010, 07]", 16320}, {"\n    - 010\n    - \"1/3\"", 9920}, {"[1, 010]", 10560},
+	}
+	f := forms[vf.NondetIntRange("form", 0, len(forms)-1)]
+	doc := "- chord: {degree: \"1\", name: \"\"}\n  values: " + f.values + "\n- chord: {degree: \"5\", name: \"7\"}\n  values: [\"1\"]\n"
+	if vf.NondetIntRange("on-a-rest", 0, 1) == 1 {
+		doc = "- values: " + f.values + "\n- chord: {degree: \"5\", name: \"7\"}\n  values: [\"1\"]\n"
+	}
+	os.WriteFile(in, []byte(doc), 0o644)
+	vf.Assert("flags-parse", writeCmd.ParseFlags([]string{"--output", out, "--program", "0", "--track", "1"}) == nil)
+	err := writeCmd.RunE(writeCmd, []string{in})
+	writeCmd.ParseFlags([]string{"--output", ""})
+	vf.Assert("every-way-of-writing-a-whole-number-is-accepted", err == nil)
+	if err != nil {
+		return
+	}
+	b, rerr := os.ReadFile(out)
+	smf, why := spec.ParseSMF(b)
+	vf.Assert("well-formed-smf", rerr == nil && smf != nil && why == "")
+	if smf == nil {
+		return
+	}
+	evs, ends := verifAbsEvents(smf)
+	vf.Assert("piece-ends-at-the-decimal-reading", len(ends) == 1 && ends[0] == f.ticks+960)
+	// the second chord strikes where the first instance ends
+	second := false
+	for _, e := range evs {
+		if e.status&0xF0 == 0x90 && e.tick == f.ticks {
+			second = true
+		}
+	}
+	vf.Assert("next-chord-starts-at-the-decimal-reading", second)
+	vf.Reach("end")
+}
+
 // VerifC12DebugFlag: --debug changes neither the bytes on standard output nor the outcome.
 func VerifC12DebugFlag() {
 	in := vf.TempPath("debug-in.txt")
 	verifReset(in)
 	defer verifReset(in)
-	text := []string{"C[1] Dm[2]\n", "C[", "C[1] ]", "4[1]{x", ""}[vf.NondetIntRange("text", 0, 4)]
+	text := []string{"C[1] Dm[2]\n", "C[", "C[1] ]", "4[1]{x", "", "C[1] ;x\nD_ ;y\nm7[2] F ;c\n#[ ;z\n1]\n"}[vf.NondetIntRange("text", 0, 5)]
 	os.WriteFile(in, []byte(text), 0o644)
 	run := func(debug bool) (string, error) {
 		flags := []string{"--output", ""}
